@@ -30,7 +30,7 @@ def send (o : OutState) (bytes : Bytes) : Outcome :=
 /-- The output layer of a terminal built with an output function and (optionally) a buffer of `n` bytes, after
     start-up (`start()` ends with a flush): nothing delivered yet (the ghost log starts here), nothing pending. -/
 def fresh (n : Nat) : OutState :=
-  { hasFunc := true, hasFd := false, bufLen := n, buf := [], out := [], tmpLen := 0,
+  { hasFunc := true, outfd := -1, bufLen := n, buf := [], out := [], tmpLen := 0,
     mode := { started := true, altscreen := false, cursorvis := true } }
 
 /-- Everything delivered to the output function / descriptor so far, concatenated. -/
